@@ -53,7 +53,7 @@ func TestFutureMonoid(t *testing.T) {
 		return future.Successful(str.Draw(t, "ok"))
 	})
 	eqT := eqTry(ceq[string])
-	runLaws(t, mk("monoid.Future(String)", monoid.Future(monoid.String), gen,
+	fm := mk("monoid.Future(String)", monoid.Future(monoid.String), gen,
 		func(a, b fp.Future[string]) bool { return eqT(tq.result(a), tq.result(b)) },
 		func(f fp.Future[string]) string { return "Future(" + showTry(tq.result(f)) + ")" },
 		func(a, b fp.Future[string]) fp.Future[string] {
@@ -65,7 +65,9 @@ func TestFutureMonoid(t *testing.T) {
 				return future.Failed[string](rb.Failed().Get())
 			}
 			return future.Successful(ra.Get() + rb.Get())
-		}, nil))
+		}, nil)
+	fm.noConc = true // results are read through the single-threaded task queue
+	runLaws(t, fm)
 }
 
 // The methods every instance built by monoid.New / semigroup.New carries besides Combine and Empty.
